@@ -2136,8 +2136,9 @@ static void compile_stmt(CG *cg, ASTNode *node) {
         uint16_t arr_slot = local_add(cg, "__for_arr__", node->line);
         emit_op(cg, OP_STORE_LOCAL, (int)arr_slot);
 
-        /* Initialize counter to 0 */
-        emit_op(cg, OP_PUSH_I64, (int64_t)0);
+        /* Initialize counter to -1: it is incremented at the loop top, so that
+         * `continue` (which jumps to the loop top) advances to the next element */
+        emit_op(cg, OP_PUSH_I64, (int64_t)-1);
         uint16_t idx_slot = local_add(cg, "__for_idx__", node->line);
         emit_op(cg, OP_STORE_LOCAL, (int)idx_slot);
 
@@ -2150,6 +2151,12 @@ static void compile_stmt(CG *cg, ASTNode *node) {
         LoopCtx *loop = &cg->loops[cg->loop_depth++];
         loop->break_count = 0;
         loop->top_offset = cg->code_size;
+
+        /* Increment counter */
+        emit_op(cg, OP_LOAD_LOCAL, (int)idx_slot);
+        emit_op(cg, OP_PUSH_I64, (int64_t)1);
+        emit_op(cg, OP_ADD);
+        emit_op(cg, OP_STORE_LOCAL, (int)idx_slot);
 
         /* Check: idx < len */
         emit_op(cg, OP_LOAD_LOCAL, (int)idx_slot);
@@ -2170,12 +2177,6 @@ static void compile_stmt(CG *cg, ASTNode *node) {
 
         /* Compile body */
         compile_stmt(cg, node->as.for_stmt.body);
-
-        /* Increment counter */
-        emit_op(cg, OP_LOAD_LOCAL, (int)idx_slot);
-        emit_op(cg, OP_PUSH_I64, (int64_t)1);
-        emit_op(cg, OP_ADD);
-        emit_op(cg, OP_STORE_LOCAL, (int)idx_slot);
 
         /* Jump back to top */
         uint32_t jmp_instr = cg->code_size;
